@@ -476,6 +476,14 @@ func genC17(t *rapid.T) c17Case {
 	if rapid.IntRange(0, 5).Draw(t, "lookalike?") == 0 {
 		s, _ = genLookalike(t) // a text that looks like a timestamp, a number, a keyword ...: a string like any other
 	}
+	if rapid.IntRange(0, 11).Draw(t, "long?") == 0 {
+		// a long text: a short unit many times over, with one odd piece somewhere inside
+		if unit := str("unit", 4); unit != "" {
+			k := rapid.SampledFrom([]int{20, 64, 100, 255, 256, 300, 1000}).Draw(t, "repeats")
+			at := rapid.IntRange(0, k).Draw(t, "oddat")
+			s = strings.Repeat(unit, at) + str("odd", 3) + strings.Repeat(unit, k-at)
+		}
+	}
 	var tt string
 	switch rapid.IntRange(0, 4).Draw(t, "tkind") {
 	case 0:
@@ -528,7 +536,7 @@ func byteCut(s string, at int) int {
 // TestC17Random: random strings over small alphabets (repeats likely), multi-byte
 // text, needles drawn as prefixes/suffixes/middles of the haystack.
 func TestC17Random(t *testing.T) {
-	run := h.Begin("C17", "random", "rapid: s over small alphabets incl. multi-byte, NUL and regexp metacharacters, or (1 in 6) a text that looks like a timestamp / number / keyword / document; t drawn as prefix/suffix/middle/unrelated; positions -3..len+3; oracle: naive loops, unicode.ToLower/ToUpper, Go regexp for RE2 agreement; non-trivial as in the exhaustive part or multi-byte s")
+	run := h.Begin("C17", "random", "rapid: s over small alphabets incl. multi-byte, NUL and regexp metacharacters, or (1 in 6) a text that looks like a timestamp / number / keyword / document, or (1 in 12) a text of 20..1000 repeats of a short unit around one odd piece; t drawn as prefix/suffix/middle/unrelated; positions -3..len+3; oracle: naive loops, unicode.ToLower/ToUpper, Go regexp for RE2 agreement; non-trivial as in the exhaustive part or multi-byte s")
 	defer run.End(t)
 	h.RapidSetup(h.N(3000, 1000000), "c17")
 	rapid.Check(t, func(rt *rapid.T) {
